@@ -48,7 +48,7 @@ Section Conc.
     if (n =? 0)%Z then Ret (Err EVarint)
     else
       Op shared (OSeed sv) (fun _ =>
-        let sorted := sorter cfg in
+        let sorted := sorter (filter (fun g => match nets g with None => false | Some _ => true end) cfg) in
         let tot := fold_left (fun a g => a + weight g) sorted 0 in
         if tot <? 1 then Ret (Err EChooser)
         else
